@@ -165,6 +165,11 @@ def check(model: Model, run: Run) -> None:
         res = ex.rres.get(c)
         enc_r = [n for n in (res.nodes if res else []) if n.kind == "encaps"]
         ok = len(enc_w) == 1 and len(enc_r) == 1
+        if not ok:
+            from ..tlvcheck import value_codec_is_delegated
+            dl = value_codec_is_delegated(model, c)
+            if dl:
+                raise AnalysisError(f"the value of {short(c)} is encoded / decoded by a separate codec object ({dl}): its grammar is not extracted")
         run.ob("W11-encapsulated-value", ok)
         if not ok:
             run.fail(Finding("W11-encapsulated-value", c, "encapsulated value", "PagedResultControl value is not written and read as an encapsulated BER value", ""))
